@@ -145,9 +145,10 @@ def run(ck):
     ops = {}
     shrunk = set()
     for c in cases:
-        acts = [(e["a"], e.get("t"), e.get("n"), e.get("seen")) for e in c.get("events", [])]
         trivial = c["stream"] == "forced" and len([s for s in c["steps"] if s["op"] == "connect"]) < 2
-        ck.count(c["stream"], key=json.dumps([acts, c.get("notes")]), trivial=trivial)
+        # (the key does not depend on how concurrent threads happened to interleave)
+        key = [c["steps"], c.get("looks")] if c["stream"] == "forced" else [c["i"], len(c.get("notes", []))]
+        ck.count(c["stream"], key=json.dumps(key), trivial=trivial)
         for s in (c["steps"] if c["stream"] == "forced" else []):
             ops[s["op"]] = ops.get(s["op"], 0) + 1
         for key, why in impl_oracle(c):
@@ -203,6 +204,6 @@ def run(ck):
              "at the schedule point after serve() so that unmap order is chosen by the schedule, lookups of every "
              "name after every step and concurrently during steps; plus free-running concurrent connect/close "
              "loops (final state and notification log only). A forced schedule is non-trivial if it has >= 2 "
-             "connects; distinct = distinct (action trace with lookups, notifications)",
+             "connects; distinct = distinct (schedule, lookups after every step)",
         assumptions=["OnConnect/OnDisconnect are the user's callbacks; the session value is whatever OnConnect returns",
                      "a failed websocket upgrade registers nothing (not modelled as a thread)"])
